@@ -129,6 +129,8 @@ theorem isLax_strict : Mode.isLax .strict = false := rfl
 theorem isLax_lax : Mode.isLax .lax = true := rfl
 theorem isCanon_strict : Mode.isCanon .strict = false := rfl
 theorem isCanon_lax : Mode.isCanon .lax = false := rfl
+theorem under_strict (raw : Bool) : Mode.under .strict raw = .strict := by cases raw <;> rfl
+theorem under_lax (raw : Bool) : Mode.under .lax raw = .lax := by cases raw <;> rfl
 theorem forMode_strict (d : Dialect) : d.forMode .strict = d := rfl
 theorem forMode_lax (d : Dialect) : d.forMode .lax = d := rfl
 
@@ -218,7 +220,7 @@ theorem parseField_rel (d : Dialect) : ∀ (t : ATy) (p : FP) (bs : Bytes),
     simp only [parseField]
     apply fieldShell_rel
     intro tl utag inner consumed
-    simp only [isCanon_strict, isCanon_lax, Bool.false_and, Bool.false_eq_true, if_false]
+    simp only [isCanon_strict, isCanon_lax, Bool.false_and, Bool.false_eq_true, if_false, under_strict, under_lax]
     rel_step (parseFields d .strict fs inner) with (parseFields_rel d fs inner)
     rfl
   | .seqOf s e, p, bs => by
